@@ -87,6 +87,15 @@ C08T = [("Mc.Props.C07", "Mc.C07." + t) for t in ["C07_gate", "C07_child_happy",
 C01T = [("Mc.Props.C01", "Mc.C01." + t) for t in ["silent_ret", "C01_updateGroup_quiet", "C01_deleteGroup_quiet", "C01_manage_quiet", "C01_equal_is_fix", "C01_ssa_quiet"]] + \
        [("Mc.Props.C06", "Mc.C06.C06_equal_no_write"), ("Mc.Props.C05", "Mc.C05.C05_idempotent"), ("Mc.Props.C05", "Mc.C05.C05_self_merge"), ("Mc.Props.C05", "Mc.C05.C05_contains")]
 
+# closed-world theorems: the Lean API-server model (Mc/Api.lean, cross-checked against the simulator on every recorded request) with arbitrary other clients
+C02CT = [("Mc.Props.C02Closed", "Mc.C02." + t) for t in ["C02_manage_accepted_update", "C02_manage_accepted_delete", "C02_manage_accepted_create"]] + \
+        [("Mc.Props.C02Sem", "Mc.C02." + t) for t in ["C02_update_lands_on_observed", "C02_status_update_lands_on_observed", "C02_delete_hits_observed_uid",
+                                                      "C02_recreated_never_deleted", "C02_created_born_with_references", "exec_log"]] + \
+        [("Mc.Props.C02Sem", "Mc.Api." + t) for t in ["inv_reachable", "inv_exec", "rv_identifies", "uid_identifies"]]
+TB_API = ["Lean model of the API server (Mc/Api.lean: optimistic concurrency by resourceVersion, UID preconditions, finalizer-aware delete, status subresource, one-controller "
+          "validation, generation bump, simplified server-side apply), checked against the Go simulator on every request the simulator answered (pre-state, body, options -> "
+          "code, post-state, response; resourceVersions and UIDs of writes must be new); other API clients are arbitrary request sequences through the same model"]
+
 PROPS = {
     "C19": {
         "theorems": C19T,
@@ -102,8 +111,8 @@ PROPS = {
     "C01": sync_prop(C01T, ["rounds-converge", "judged-converge"],
                      "non-trivial = a convergence scenario judged by the cross-round oracle (no foreign object on a desired name)" + RULE_ROUNDS, ["children", "claim", "status", "outcome"],
                      extra_streams=[rounds("converge", 240, 2400, ["judged-converge"])]),
-    "C02": sync_prop(C02T + C04T[:1] + C04T[3:6] + C06T[-1:], ["create-child", "update-child", "delete-child", "apply-child", "create-revision", "update-revision", "delete-revision"],
-                     "non-trivial = some child or ControllerRevision write was accepted" + RULE_INTERLEAVE, ["claim", "children", "revisions"],
+    "C02": sync_prop(C02T + C02CT + C04T[:1] + C04T[3:6] + C06T[-1:], ["create-child", "update-child", "delete-child", "apply-child", "create-revision", "update-revision", "delete-revision"],
+                     "non-trivial = some child or ControllerRevision write was accepted" + RULE_INTERLEAVE, ["claim", "children", "revisions", "apimodel"],
                      extra_streams=[rounds("interleave", 600, 6000, ["create-child", "update-child", "delete-child", "failed-update", "failed-delete"])]),
     "C04": sync_prop(C04T, ["update-child", "update-revision", "failed-update"],
                      "non-trivial = an ownership edit or another child update was attempted" + RULE_INTERLEAVE, ["claim"],
@@ -122,8 +131,8 @@ PROPS = {
     "C08": sync_prop(C08T, ["rounds-rollout", "update-revision"],
                      "non-trivial = a whole rollout scenario (summary line), or a sync that wrote a ControllerRevision" + RULE_ROUNDS, ["revisions", "children", "status"],
                      extra_streams=[rounds("rollout", 60, 360, ["rounds-rollout", "update-revision"])]),
-    "C11": sync_prop(C11T, ["updateStatus-parent", "failed-updateStatus"],
-                     "non-trivial = a parent status write was attempted" + RULE_INTERLEAVE, ["status", "outcome"],
+    "C11": sync_prop(C11T + [("Mc.Props.C02Sem", "Mc.C02.C02_status_update_lands_on_observed")], ["updateStatus-parent", "failed-updateStatus"],
+                     "non-trivial = a parent status write was attempted" + RULE_INTERLEAVE, ["status", "outcome", "apimodel"],
                      extra_streams=[rounds("interleave", 600, 6000, ["updateStatus-parent", "failed-updateStatus"])]),
     "C14": {
         "theorems": [("Mc.Props.C14", "Mc.C14." + t) for t in ["C14_parent", "C14_child", "C14_related", "C14_replay_silent", "C14_only_admitted",
@@ -229,3 +238,6 @@ PROPS = {
         ],
     },
 }
+
+for _p in ("C02", "C11"):
+    PROPS[_p]["trusted_base"] = PROPS[_p]["trusted_base"] + TB_API
